@@ -374,3 +374,137 @@ func onlyNil(v ssa.Value) bool {
 	}
 	return false
 }
+
+func init() {
+	register(&Rule{ID: "A2", Min: 40, Text: "stored-object hygiene in the memory backend: go-memdb hands out references to the stored objects, so a value obtained from a transaction read (raw.(*T) of First/Get/Next) may not be written through, passed as the receiver of a method that writes its fields, or inserted back after modification, unless it first went through DeepCopy — a write through the stored object takes effect outside any transaction (no compare-and-set, visible to concurrent readers, not rolled back)",
+		Run: func(x *Ctx) {
+			// mutating methods of the record types: methods of package database that store to a field of their receiver
+			mutM := map[*types.Func]bool{}
+			for _, fn := range x.P.FuncsIn(dbPkg) {
+				if fn.Signature.Recv() == nil || len(fn.Params) == 0 || fn.Name() == "DeepCopy" {
+					continue
+				}
+				recv := fn.Params[0]
+				for _, b := range fn.Blocks {
+					for _, ins := range b.Instrs {
+						switch t := ins.(type) {
+						case *ssa.Store:
+							if fa, ok := t.Addr.(*ssa.FieldAddr); ok && prog.Reaches(fa.X, func(w ssa.Value) bool { return w == ssa.Value(recv) }) {
+								if o, ok := fn.Object().(*types.Func); ok {
+									mutM[o] = true
+								}
+							}
+						case *ssa.MapUpdate:
+							if f := prog.LoadedField(t.Map); f != nil {
+								if o, ok := fn.Object().(*types.Func); ok {
+									mutM[o] = true
+								}
+							}
+						}
+					}
+				}
+			}
+			// transitive within the package
+			for changed := true; changed; {
+				changed = false
+				for _, fn := range x.P.FuncsIn(dbPkg) {
+					o, ok := fn.Object().(*types.Func)
+					if !ok || mutM[o] || fn.Signature.Recv() == nil || len(fn.Params) == 0 || fn.Name() == "DeepCopy" {
+						continue
+					}
+					for _, c := range prog.CallsIn(fn) {
+						if co := prog.CallObj(c); co != nil && mutM[co.Origin()] && recvOf(c) != nil && prog.Reaches(recvOf(c), func(w ssa.Value) bool { return w == ssa.Value(fn.Params[0]) }) {
+							mutM[o] = true
+							changed = true
+						}
+					}
+				}
+			}
+			x.C.Count("mutating methods of the record types", len(mutM))
+			n := map[string]int{}
+			total := 0
+			for _, fn := range x.P.FuncsIn(memPkg) {
+				for _, b := range fn.Blocks {
+					for _, ins := range b.Instrs {
+						ta, ok := ins.(*ssa.TypeAssert)
+						if !ok {
+							continue
+						}
+						pt, ok := ta.AssertedType.(*types.Pointer)
+						if !ok {
+							continue
+						}
+						nt, ok := pt.Elem().(*types.Named)
+						if !ok || nt.Obj().Pkg() == nil || !strings.HasSuffix(nt.Obj().Pkg().Path(), "/"+dbPkg) {
+							continue
+						}
+						// the asserted interface value comes from a memdb read
+						fromTxn := prog.Reaches(ta.X, func(w ssa.Value) bool {
+							c, ok := w.(*ssa.Call)
+							if !ok {
+								return false
+							}
+							o := prog.CallObj(c)
+							if o == nil {
+								return false
+							}
+							if recv := recvOf(c); recv != nil && isMemdbTxn(recv.Type()) {
+								return true
+							}
+							return o.Name() == "Next" && o.Pkg() != nil && strings.HasSuffix(o.Pkg().Path(), "go-memdb")
+						})
+						if !fromTxn {
+							continue
+						}
+						var stored ssa.Value = ta
+						if ta.CommaOk {
+							stored = nil
+							for _, r := range *ta.Referrers() {
+								if ex, ok := r.(*ssa.Extract); ok && ex.Index == 0 {
+									stored = ex
+								}
+							}
+							if stored == nil {
+								continue
+							}
+						}
+						total++
+						n[prog.FnName(fn)]++
+						k := fmt.Sprintf("func=%s stored=%s#%d", prog.FnName(fn), nt.Obj().Name(), n[prog.FnName(fn)])
+						bad := ""
+						// every value that is this stored pointer (through phis / locals)
+						isStored := func(v ssa.Value) bool {
+							return prog.Reaches(v, func(w ssa.Value) bool { return w == stored })
+						}
+						for _, g := range append([]*ssa.Function{fn}, prog.Closures(fn)...) {
+							for _, bb := range g.Blocks {
+								for _, in2 := range bb.Instrs {
+									switch t := in2.(type) {
+									case *ssa.Store:
+										if fa, ok := t.Addr.(*ssa.FieldAddr); ok && isStored(fa.X) {
+											bad = "field " + prog.FieldVar(fa).Name() + " is written at " + x.pos(t)
+										}
+									case *ssa.MapUpdate:
+										if f := prog.LoadedField(t.Map); f != nil && prog.FieldBase(t.Map) != nil && isStored(prog.FieldBase(t.Map)) {
+											bad = "map field " + f.Name() + " is updated at " + x.pos(t)
+										}
+									case ssa.CallInstruction:
+										o := prog.CallObj(t)
+										if o == nil {
+											continue
+										}
+										if mutM[o.Origin()] && recvOf(t) != nil && isStored(recvOf(t)) {
+											bad = "mutating method " + o.Name() + " is called on it at " + x.pos(in2)
+										}
+									}
+								}
+							}
+						}
+						x.check(bad == "", k, x.pos(ta), "the stored object is only read or deep-copied",
+							"a stored "+nt.Obj().Name()+" is modified in place ("+bad+"): the change bypasses the transaction (no compare-and-set, visible before commit, not rolled back on Abort)")
+					}
+				}
+			}
+			x.C.Count("stored objects read back in memory.DB", total)
+		}})
+}
